@@ -17,6 +17,33 @@ mod values;
 fn main() {
     let args = args::Args::parse();
     let started = std::time::Instant::now();
+    // every engine process: a watched store call that burns 30 s of its own thread's CPU time without
+    // returning is a livelock; it becomes the (only) result of this process instead of a watchdog timeout
+    if !matches!(args.engine.as_str(), "live-child" | "selftest") {
+        let (out, engine, seed, tier) = (args.out.clone(), args.engine.clone(), args.seed, args.tier.clone());
+        let argv: Vec<String> = std::env::args().collect();
+        callwatch::supervise(
+            30.0,
+            std::sync::Arc::new(move |call: String, burnt: f64| {
+                let mut r = report::Report::new(&engine, "per-call CPU budget");
+                r.evaluations = 1;
+                r.violation(
+                    format!("livelock:{call}"),
+                    format!("{call} has burnt {burnt:.0} s of its own thread's CPU time without returning (a retry loop that makes no progress)"),
+                    serde_json::json!({"engine": engine, "argv": argv}),
+                );
+                let mut json = r.to_json();
+                json["wall_s"] = serde_json::json!(started.elapsed().as_secs_f64());
+                json["seed"] = serde_json::json!(seed);
+                json["tier"] = serde_json::json!(tier);
+                if let Some(path) = &out {
+                    let _ = std::fs::write(path, serde_json::to_string_pretty(&json).unwrap());
+                }
+                eprintln!("[{engine}] LIVELOCK {call} after {burnt:.0} s of CPU");
+                std::process::exit(0);
+            }),
+        );
+    }
     let report = match args.engine.as_str() {
         "selftest" => {
             match indep::selftest() {
